@@ -48,11 +48,13 @@ class Sym:
 
 
 class SInt(Sym):
-    __slots__ = ("t", "tz")
+    __slots__ = ("t", "tz", "prov", "bits")
 
-    def __init__(self, t: z3.ArithRef, tz: int = 0):
+    def __init__(self, t: z3.ArithRef, tz: int = 0, prov: Any = None, bits: Any = None):
         self.t = t
         self.tz = tz  # number of low bits syntactically known to be zero
+        self.bits = bits  # ("within", lo, w): only bits [lo, lo+w) may be set; ("clear", lo, w): those bits are zero
+        self.prov = prov  # ("from_bytes", SBytes, order, n): positional-notation provenance (A-struct identities)
 
     def __repr__(self) -> str:
         return f"SInt({self.t})"
@@ -71,12 +73,13 @@ class SBool(Sym):
 class SBytes(Sym):
     """Immutable byte string (bytes).  n: Int term, at: index term -> Int term in [0,256)."""
 
-    __slots__ = ("n", "at", "name")
+    __slots__ = ("n", "at", "name", "prov")
 
-    def __init__(self, n: Any, at: Callable[[Any], Any], name: str = ""):
+    def __init__(self, n: Any, at: Callable[[Any], Any], name: str = "", prov: Any = None):
         self.n = n if z3.is_expr(n) else z3.IntVal(n)
         self.at = at
         self.name = name
+        self.prov = prov  # ("to_bytes", int term, order, n): these bytes are the n-digit base-256 notation of a value
 
     def __repr__(self) -> str:
         return f"SBytes({self.name or '?'}, n={self.n})"
